@@ -64,7 +64,7 @@ def _merge(cell, stats):
         ph = [z3.Bool(f"phantom{i}") for i in range(K)]
         po = [z3.Bool(f"pool{i}") for i in range(K)]
         has = [[z3.Bool(f"has{i}_{c}") for c in CONS] for i in range(K)]
-        vdicts = [{c: {"tag": (i, c)} for c in CONS} for i in range(K)]
+        vdicts = [{c: {"tag": (i, c), f"only{i}": True} for c in CONS} for i in range(K)]      # every record marks its own candidate
         recs = [A.CVR(id=f"id{ids[i]}", votes=aud.PresDict({c: has[i][k] for k, c in enumerate(CONS)}, vdicts[i]),
                       phantom=SB(ph[i]), pool=SB(po[i]), tally_pool=pools[i]) for i in range(K)]
         inputs = lambda m: dict(ids=ids, pools=pools, phantom=[bool(model_value(m, x)) for x in ph], pool=[bool(model_value(m, x)) for x in po],
@@ -117,7 +117,8 @@ def _merge(cell, stats):
                             want = [z3.And(has[i][k], *[z3.Not(has[j][k]) for j in members if j > i]) for i in members]
                             ok = z3.Or(*[w for i, w in zip(members, want) if src == (i, c)]) if src is not None else z3.BoolVal(False)
                             claims.append((f"id{g}: contest {c} carries the votes of the last record listing it", ok))
-                            claims.append((f"id{g}: contest {c} carries exactly one record's votes", set(r.votes[c].keys()) == {"tag"}))
+                            claims.append((f"id{g}: contest {c} carries exactly one record's votes (no marks left over from an earlier record)",
+                                           src is not None and set(r.votes[c].keys()) == {"tag", f"only{src[0]}"}))
                     pz = r.phantom.e if isinstance(r.phantom, SB) else (z3.BoolVal(r.phantom) if isinstance(r.phantom, bool) else None)
                     claims.append((f"id{g}: phantom only if all were", (pz == z3.And(*[ph[i] for i in members])) if pz is not None else False))
                     qz = r.pool.e if isinstance(r.pool, SB) else (z3.BoolVal(r.pool) if isinstance(r.pool, bool) else None)
@@ -232,7 +233,7 @@ def replay(f):
         return dict(reproduced=not ok, detail=f"rows={rows}: got {got}, expected {[(b, cards[b]) for b in order]}")
     K, ids, pools = cell["K"], cell["ids"], cell["pools"]
     CONS = ["c1", "c2"]
-    recs = [A.CVR(id=f"id{ids[i]}", votes={c: {"tag": (i, c)} for k, c in enumerate(CONS) if inp["lists"][i][k]},
+    recs = [A.CVR(id=f"id{ids[i]}", votes={c: {"tag": (i, c), f"only{i}": True} for k, c in enumerate(CONS) if inp["lists"][i][k]},
                   phantom=bool(inp["phantom"][i]), pool=bool(inp["pool"][i]), tally_pool=pools[i]) for i in range(K)]
     conflict = False
     for g in set(ids):
@@ -266,7 +267,7 @@ def replay(f):
                     listing = [i for i in members if inp["lists"][i][k]]
                     if (c in r.votes) != bool(listing):
                         bad.append(f"id{g}: contest {c} present={c in r.votes}, listed by {listing}")
-                    elif listing and r.votes[c] != {"tag": (listing[-1], c)}:
+                    elif listing and r.votes[c] != {"tag": (listing[-1], c), f"only{listing[-1]}": True}:
                         bad.append(f"id{g}: contest {c} votes {r.votes[c]}, expected those of record {listing[-1]}")
                 if r.phantom is not all(inp["phantom"][i] for i in members):
                     bad.append(f"id{g}: phantom={r.phantom!r}")
